@@ -2,6 +2,7 @@ package sym
 
 import (
 	"fmt"
+	"math"
 	"sort"
 	"strings"
 )
@@ -23,6 +24,14 @@ type Term struct {
 	lo   uint64 // unsigned range of the value (bit-vector terms): lo <= v <= hi
 	hi   uint64
 }
+
+// wFP is the width code of float64 terms (sort (_ FloatingPoint 11 53)); their
+// constants hold the IEEE-754 bits, and constant folding / model evaluation
+// use the host's float64 arithmetic (round to nearest even, as the solver's).
+const wFP = -64
+
+// FConst is the float64 constant f.
+func (tt *termTable) FConst(f float64) *Term { return tt.Const(wFP, math.Float64bits(f)) }
 
 // termTable hash-conses terms for one path execution.
 type termTable struct {
@@ -65,7 +74,7 @@ func (t *Term) isConst() bool { return t.op == "const" }
 func (tt *termTable) Const(w int, v uint64) *Term {
 	if w > 0 {
 		v &= mask(w)
-	} else if v != 0 {
+	} else if w == 0 && v != 0 {
 		v = 1
 	}
 	return tt.intern(&Term{op: "const", w: w, val: v})
@@ -97,6 +106,21 @@ func signExt(v uint64, w int) int64 {
 func computeRange(t *Term) (lo, hi uint64) {
 	if t.w == 0 {
 		return 0, 1
+	}
+	if t.w == wFP {
+		if t.op == "const" {
+			return t.val, t.val
+		}
+		return 0, ^uint64(0)
+	}
+	if len(t.args) > 0 && t.args[0].w == wFP {
+		// fp.to_ubv / fp.to_sbv (truncation is monotone), comparisons
+		if t.op == "fp.to_ubv" {
+			if lo, hi, ok := fpInterval(t.args[0]); ok && lo >= 0 && hi < 18446744073709551616.0 {
+				return uint64(lo), uint64(hi)
+			}
+		}
+		return 0, mask(t.w)
 	}
 	full := mask(t.w)
 	switch t.op {
@@ -240,7 +264,33 @@ func evalOp(op string, w int, a []uint64, aw int, p1, p2 int) (uint64, bool) {
 		}
 		return 0
 	}
+	f := math.Float64frombits
+	fb := math.Float64bits
 	switch op {
+	case "fp.add":
+		return fb(f(a[0]) + f(a[1])), true
+	case "fp.sub":
+		return fb(f(a[0]) - f(a[1])), true
+	case "fp.mul":
+		return fb(f(a[0]) * f(a[1])), true
+	case "fp.div":
+		return fb(f(a[0]) / f(a[1])), true
+	case "fp.neg":
+		return fb(-f(a[0])), true
+	case "fp.from_ubv":
+		return fb(float64(a[0])), true
+	case "fp.from_sbv":
+		return fb(float64(int64(a[0]))), true
+	case "fp.to_ubv":
+		return uint64(f(a[0])), true // callers prove 0 <= x < 2^64 first
+	case "fp.to_sbv":
+		return uint64(int64(f(a[0]))), true // callers prove -2^63 <= x < 2^63 first
+	case "fp.lt":
+		return b2u(f(a[0]) < f(a[1])), true
+	case "fp.leq":
+		return b2u(f(a[0]) <= f(a[1])), true
+	case "fp.eq":
+		return b2u(f(a[0]) == f(a[1])), true
 	case "bvadd":
 		return (a[0] + a[1]) & mask(w), true
 	case "bvsub":
@@ -618,10 +668,16 @@ func sortOf(w int) string {
 	if w == 0 {
 		return "Bool"
 	}
+	if w == wFP {
+		return "(_ FloatingPoint 11 53)"
+	}
 	return fmt.Sprintf("(_ BitVec %d)", w)
 }
 
 func constStr(w int, v uint64) string {
+	if w == wFP {
+		return fmt.Sprintf("((_ to_fp 11 53) #x%016x)", v)
+	}
 	if w == 0 {
 		if v != 0 {
 			return "true"
@@ -685,6 +741,16 @@ func smtScript(asserts []*Term) (script string, vars []*Term) {
 			fmt.Fprintf(&b, "(_ zero_extend %d)", t.p1)
 		case "sext":
 			fmt.Fprintf(&b, "(_ sign_extend %d)", t.p1)
+		case "fp.add", "fp.sub", "fp.mul", "fp.div":
+			b.WriteString(t.op + " RNE")
+		case "fp.from_ubv":
+			b.WriteString("(_ to_fp_unsigned 11 53) RNE")
+		case "fp.from_sbv":
+			b.WriteString("(_ to_fp 11 53) RNE")
+		case "fp.to_ubv":
+			b.WriteString("(_ fp.to_ubv 64) RTZ")
+		case "fp.to_sbv":
+			b.WriteString("(_ fp.to_sbv 64) RTZ")
 		default:
 			b.WriteString(t.op)
 		}
